@@ -68,7 +68,8 @@ fn test(c: &Case, st: &mut Stats) -> TestResult {
         return Ok(());
     }
     let all_types = dedup_keep_order(&r.attrs.iter().map(|a| a.ty).collect::<Vec<_>>());
-    let exposed: Vec<u16> = r.exposed_attrs().iter().map(|a| a.ty).collect();
+    // 'exposed' is what the library's own iteration shows (which attributes are visible is C10's business)
+    let exposed: Vec<u16> = msg.iter_attributes().take(bytes.len() / 4 + 2).map(|a| a.get_type().value()).collect();
     let mut supported: Vec<u16> = all_types.iter().enumerate().filter(|(i, _)| c.sup_sel >> (i % 64) & 1 == 1).map(|(_, t)| *t).collect();
     supported.extend_from_slice(&c.extra_sup);
     let mut required: Vec<u16> = all_types.iter().enumerate().filter(|(i, _)| c.req_sel >> (i % 64) & 1 == 1).map(|(_, t)| *t).collect();
@@ -253,7 +254,7 @@ pub fn run(ctx: &Ctx) -> EvidenceMeta {
     let sel = || prop_oneof![2 => any::<u64>(), 1 => Just(0u64), 2 => Just(u64::MAX), 1 => (0u32..8).prop_map(|b| !(1u64 << b))];
     ctx.proptest(
         "generated",
-        ctx.n(10_000, 500_000),
+        ctx.n(80_000, 2_500_000),
         move || {
             (
                 prop_oneof![
